@@ -390,7 +390,61 @@ pub fn dimension_corpus(ctx: CtxK) -> Vec<Node> {
         c.push(AndV(bx(v(rp(100))), bx(pk(0))));
     }
     let _ = pkh;
+    c.extend(wrapper_towers(ctx));
     c
+}
+
+fn base_of_node<Pk: KeyOf, Ctx: ScriptContext>(n: &Node) -> Option<miniscript::miniscript::types::Base> {
+    to_ms::<Pk, Ctx>(n).ok().map(|m| m.ty.corr.base)
+}
+
+/// Every tower of two or three wrappers (a s c d v j n, in every order) over every atom kind that
+/// the context's type rules accept, embedded in a satisfiable B-typed script: each wrapper's
+/// accounting depends on properties set by the wrapper below it (`has_free_verify`, `pk_cost`,
+/// stack bounds), which single wrappers over atoms do not exercise.
+pub fn wrapper_towers(ctx: CtxK) -> Vec<Node> {
+    use miniscript::miniscript::types::Base;
+    use Node::*;
+    let tap = ctx == CtxK::Tap;
+    let b = if tap { 200 } else { 0 };
+    let bx = |n: Node| Box::new(n);
+    let pk = |i: u32| Check(bx(PkK(b + i)));
+    let atoms: Vec<Node> = vec![
+        PkK(b), PkH(b), pk(0), Check(bx(PkH(b))),
+        if tap { MultiA(1, vec![b, b + 1]) } else { Multi(1, vec![b, b + 1]) },
+        Hash(HK::Sha256, 0), Older(10), After(100), True,
+        Thresh(1, vec![pk(0), Swap(bx(pk(1)))]),
+        AndV(bx(Verify(bx(pk(0)))), bx(pk(1))),
+    ];
+    let wrap = |w: u8, x: Node| -> Node {
+        match w { 0 => Alt(bx(x)), 1 => Swap(bx(x)), 2 => Check(bx(x)), 3 => DupIf(bx(x)), 4 => Verify(bx(x)), 5 => NonZero(bx(x)), _ => ZeroNotEqual(bx(x)) }
+    };
+    let base_of = |n: &Node| -> Option<Base> { with_ctx!(ctx, base_of_node(n)) };
+    let mut out: Vec<Node> = vec![];
+    let mut seen = std::collections::BTreeSet::new();
+    for a in &atoms {
+        for w1 in 0..7u8 {
+            let x1 = wrap(w1, a.clone());
+            if base_of(&x1).is_none() { continue; }
+            for w2 in 0..7u8 {
+                let x2 = wrap(w2, x1.clone());
+                if base_of(&x2).is_none() { continue; }
+                let mut tops = vec![x2.clone()];
+                for w3 in 0..7u8 { let x3 = wrap(w3, x2.clone()); if base_of(&x3).is_some() { tops.push(x3); } }
+                for t in tops {
+                    let emb: Vec<Node> = match base_of(&t) {
+                        Some(Base::B) => vec![t.clone(), AndV(bx(Verify(bx(pk(7)))), bx(t.clone())), OrD(bx(pk(7)), bx(t.clone()))],
+                        Some(Base::V) => vec![AndV(bx(t.clone()), bx(pk(7))), AndV(bx(t.clone()), bx(True))],
+                        Some(Base::W) => vec![AndB(bx(pk(7)), bx(t.clone())), OrB(bx(pk(7)), bx(t.clone())), Thresh(1, vec![pk(7), t.clone()])],
+                        Some(Base::K) => vec![Check(bx(t.clone()))],
+                        None => vec![],
+                    };
+                    for e in emb { if base_of(&e) == Some(Base::B) && seen.insert(e.wire()) { out.push(e); } }
+                }
+            }
+        }
+    }
+    out
 }
 
 /// key ids usable in a context
